@@ -10,4 +10,9 @@ for ws in ws-sym ws-real; do
 done
 (cd symx/ws-sym && CARGO_TARGET_DIR=/verif/.build/sym cargo build --offline -q)
 (cd symx/ws-real && CARGO_TARGET_DIR=/verif/.build/real cargo build --offline -q)
-echo "setup ok"
+echo "setup symx ok"
+# Kani harness crate for C19: native replay binary + a first kani compile (warms the cache)
+[ -f kani/intprops/Cargo.lock ] || cp /repo/Cargo.lock kani/intprops/Cargo.lock
+(cd kani/intprops && CARGO_TARGET_DIR=/verif/.build/kani-native cargo build --offline -q)
+(cd kani/intprops && cargo kani --target-dir /verif/.build/kani -Z stubbing --output-format terse --harness unary >/dev/null 2>&1 || true)
+echo "setup kani ok"
